@@ -272,6 +272,8 @@ def load_findings():
     p = VERIF / "known_findings.json"
     if p.exists():
         out += json.loads(p.read_text())["findings"]
+    for q in sorted((VERIF / "known_findings.d").glob("*.json")):
+        out += json.loads(q.read_text())["findings"]
     return out
 
 
